@@ -286,6 +286,8 @@ def concretise(o, workdir, budget):
     targets = [("%s@%s" % (clause_id, o["pos"]), (1, 2, 3, 6))]
     if not clause_id.startswith("safety:"):
         # a loop invariant / assertion has no counterpart in the unrolled program: look for any run-time panic of the function instead
+        if not clause_id.startswith("ensures"):
+            targets.append(("ensures", (2, 4)))
         targets.append(("safety:", (2, 4)))
     for ad, f in cands:
         for target, ks in targets:
